@@ -63,6 +63,13 @@ type session struct {
 	dead    error // non-nil once the connection is unusable
 	abort   chan struct{}
 	onKill  func(error)
+	parsed  *parsedQuery
+}
+
+type parsedQuery struct {
+	sql   string
+	stmts []stmt
+	err   error
 }
 
 // kill terminates the session: rolls back its transaction and marks it dead.
@@ -330,6 +337,7 @@ func (ss *session) waitFor(blocker *txn, sql string) error {
 		req = &Request{ConnID: ss.id, Seq: s.seq, Kind: ReqLockWait, SQL: normalizeSQL(sql), InTx: ss.tx != nil && ss.tx.explicit, Writes: true, BlockedBy: blocker.connID}
 	}
 	s.mu.Unlock()
+	s.drainEvents() // commits of earlier statements of this batch
 	action := Proceed
 	if gate != nil {
 		action = gate(req)
@@ -524,6 +532,7 @@ func (ss *session) describeBatch() *Request {
 	}
 	local := map[string]string{} // statements parsed earlier in this batch
 	localPortal := map[string]string{}
+	boundStmt := map[string]string{}
 	executed := false
 	var parsed []string
 	for _, m := range ss.batch {
@@ -532,7 +541,9 @@ func (ss *session) describeBatch() *Request {
 			var q pgproto3.Query
 			if q.Decode(m.body) == nil {
 				sqls = append(sqls, normalizeSQL(q.String))
-				if stmts, err := parseSQL(q.String); err == nil {
+				stmts, err := parseSQL(q.String)
+				ss.parsed = &parsedQuery{q.String, stmts, err} // reused by simpleQuery
+				if err == nil {
 					classify(stmts)
 				}
 			}
@@ -559,6 +570,7 @@ func (ss *session) describeBatch() *Request {
 				}
 			}
 			localPortal[b.DestinationPortal] = sql
+			boundStmt[b.DestinationPortal] = b.PreparedStatement
 			args = append(args, renderArgs(&b, types))
 		case 'E':
 			var e pgproto3.Execute
@@ -566,13 +578,20 @@ func (ss *session) describeBatch() *Request {
 				continue
 			}
 			sql, ok := localPortal[e.Portal]
+			var known *pstmt
 			if !ok {
 				if po := ss.portals[e.Portal]; po != nil {
-					sql = po.ps.sql
+					sql, known = po.ps.sql, po.ps
 				}
+			} else if ps := ss.stmts[boundStmt[e.Portal]]; ps != nil && ps.sql == sql {
+				known = ps
 			}
 			sqls = append(sqls, normalizeSQL(sql))
-			if stmts, err := parseSQL(sql); err == nil {
+			if known != nil {
+				if known.st != nil {
+					classify([]stmt{known.st})
+				}
+			} else if stmts, err := parseSQL(sql); err == nil {
 				classify(stmts)
 			}
 			executed = true
@@ -731,7 +750,14 @@ func (ss *session) processBatch() {
 }
 
 func (ss *session) simpleQuery(sql string) {
-	stmts, err := parseSQL(sql)
+	var stmts []stmt
+	var err error
+	if p := ss.parsed; p != nil && p.sql == sql {
+		stmts, err = p.stmts, p.err
+	} else {
+		stmts, err = parseSQL(sql)
+	}
+	ss.parsed = nil
 	if err != nil {
 		ss.sendError(err)
 		ss.abortTx()
